@@ -31,7 +31,9 @@ func VSymLabels(tag string, max int) map[string]string {
 	}
 	m := map[string]string{}
 	for i := 0; i < n; i++ {
-		m[zzverif.NondetString(tag+".k")] = zzverif.NondetString(tag + ".v")
+		k := zzverif.NondetString(tag + ".k")
+		zzverif.Assume(k != "") // label keys are never empty (label syntax)
+		m[k] = zzverif.NondetString(tag + ".v")
 	}
 	return m
 }
@@ -194,6 +196,7 @@ func VSymLabelSelector(tag string) *metav1.LabelSelector {
 			op = metav1.LabelSelectorOpDoesNotExist
 		}
 		e := metav1.LabelSelectorRequirement{Key: zzverif.NondetString(tag + ".ekey"), Operator: op}
+		zzverif.Assume(e.Key != "")
 		for j := 0; j < nvals; j++ {
 			e.Values = append(e.Values, zzverif.NondetString(tag+".eval"))
 		}
